@@ -301,7 +301,10 @@ class Server(object):
             sk = node.child("skey")
             d["skey"] = (sk.child("id").data, sk.child("value").data, sk.child("signature").data)
             for k in node.child("list").children:
-                d["pre"].append((k.child("id").data, k.child("value").data))
+                kid, kval = k.child("id").data, k.child("value").data
+                # a key id uploaded again (its first upload was not confirmed to the client) replaces the stored one
+                d["pre"] = [x for x in d["pre"] if x[0] != kid]
+                d["pre"].append((kid, kval))
             d["asked"] = False
             acc.keys = d
             self.stat("key_upload")
